@@ -60,6 +60,7 @@ theorem safe_hdrF : Safe hdrF := by intro x; unfold hdrF; split <;> simp_all
 theorem safe_snapF : Safe snapF := by intro x; simp [snapF]
 theorem safe_markF : Safe markF := by intro x; simp [markF]
 theorem safe_deactF : Safe deactF := by intro x; simp [deactF]
+theorem safe_msgF (m : Bytes) : Safe (msgF m) := by intro x; unfold msgF; split <;> simp_all
 
 /-! ## rpc lists -/
 
@@ -139,6 +140,12 @@ variable (s : State)
 @[simp] theorem updRpc_tstate (i : Nat) (f : Rpc → Rpc) : (s.updRpc i f).tstate = s.tstate := rfl
 @[simp] theorem updRpc_nextID (i : Nat) (f : Rpc → Rpc) : (s.updRpc i f).nextID = s.nextID := rfl
 @[simp] theorem updRpc_ga (i : Nat) (f : Rpc → Rpc) : (s.updRpc i f).goAwayClosed = s.goAwayClosed := rfl
+
+@[simp] theorem setMsg_streams (i : Nat) (x : Strm) (m : Bytes) : (s.setMsg i x m).streams = s.streams.modify i (msgF m) := rfl
+@[simp] theorem setMsg_rpcs (i : Nat) (x : Strm) (m : Bytes) : (s.setMsg i x m).rpcs = s.rpcs := rfl
+@[simp] theorem setMsg_tstate (i : Nat) (x : Strm) (m : Bytes) : (s.setMsg i x m).tstate = s.tstate := rfl
+@[simp] theorem setMsg_nextID (i : Nat) (x : Strm) (m : Bytes) : (s.setMsg i x m).nextID = s.nextID := rfl
+@[simp] theorem setMsg_ga (i : Nat) (x : Strm) (m : Bytes) : (s.setMsg i x m).goAwayClosed = s.goAwayClosed := rfl
 
 @[simp] theorem orphan_streams (i e : Nat) : (s.orphan i e).streams = s.streams.modify i (orphanF e) := rfl
 @[simp] theorem orphan_rpcs (i e : Nat) : (s.orphan i e).rpcs = s.rpcs := rfl
@@ -227,6 +234,7 @@ macro "smono" : tactic => `(tactic|
     | apply SMono.modify (hf := safe_orphanF _)
     | apply SMono.modify (hf := safe_hdrF)
     | apply SMono.modify (hf := safe_deactF)
+    | apply SMono.modify (hf := safe_msgF _)
     | (apply SMono.modify; case hf => safe_upd)
     | apply SMono.append
     | apply SMono.map (hf := safe_snapF)))
